@@ -116,12 +116,14 @@ void constructCommon(ModelSignature model,
     std::string filename = checkpoint_filename;
     std::string filename_old = checkpoint_filename + "_old";
 
+    bool recovered_current = false; // the state was recovered from filename, the file is already up to date
     if (!filename.empty()){ // recover from an existing checkpoint
         std::ifstream infile(filename, std::ios::binary);
         try{ // attempt to recover from filename
             if (!infile.good()) throw std::runtime_error("missing main checkpoint");
             grid.read(infile, mode_binary);
             complete.read(infile);
+            recovered_current = true;
         }catch(std::runtime_error &){
             // main file is missing or is corrupt, try the older version
             std::ifstream oldfile(filename_old, std::ios::binary);
@@ -135,7 +137,7 @@ void constructCommon(ModelSignature model,
         }
     }
 
-    if (!filename.empty()){ // initial checkpoint
+    if (!filename.empty() && !recovered_current){ // initial checkpoint, never overwrite the only valid checkpoint without a backup
         std::ofstream ofs(filename, std::ios::binary);
         grid.write(ofs, mode_binary); // write grid to current
         complete.write(ofs);
